@@ -13,7 +13,7 @@ import vlib
 
 COMP_SRCS = ["harness/comp/comp.cpp"]
 PLAN = {"C17": (["vbyte", "logseq", "daclayout"], ["vbyte", "logseq", "dacvls"]),
-        "C18": (["codes"], ["codes"]),
+        "C18": (["codes"], ["codes", "tabledec"]),
         "C19": (["succinct"], ["bitseq", "wt"]),
         "C20": (["repair"], ["repair"])}
 _bad_re = re.compile(r'^<<"BAD", "(.*)">>$')
@@ -216,6 +216,19 @@ def run(pid, tier):
                 for par in G.param_grid(kind, S, False)[:1]:
                     progs += csd.obj_programs("C20", kind, par, name, S, "members", lambda h, its: G.sec_members(h, S, rng, 30), all_loads=True)
         bad, st = csd.campaign(progs, "plain", work, "C20dict", tmo=6)
+        bad, _nr = csd.confirm_timeouts(bad, work, "plain", "C20dict")
+        # a text large enough for the compressor's pair table to be rebuilt while it runs (more than 98 303 distinct
+        # pairs alive at once needs over a megabyte of pair-rich text): 100 000 random strings over 29 symbols
+        hrng = random.Random(vlib.seed() * 31 + 2020)
+        huge = G.rnd_set(hrng, 100000, 10, 20, b"", bytes(range(65, 65 + 29)))
+        hprogs = []
+        for kind in ("RPDAC", "HASHRPDAC"):
+            par = G.param_grid(kind, huge, False)[0]
+            hprogs += csd.obj_programs("C20", kind, par, "huge100k", huge, "members", lambda h, its: G.sec_meta(h) + G.sec_members(h, huge, hrng, 8),
+                                       origins=("built", "loaded") if tier == "thorough" else ("built",))
+        hbad, hst = csd.campaign(hprogs, "plain", work, "C20huge", tmo=90)
+        bad += hbad
+        st = {k: st[k] + hst.get(k, 0) for k in st}
         rel = [b for b in bad if b["p"] in ("C01", "C03") or b["ev"] in ("crash", "timeout")]
         csd.resolve_crash_sites(rel, work)
         for b in rel:
@@ -288,7 +301,7 @@ def replay(pid, path):
     shutil.rmtree(work, ignore_errors=True)
     os.makedirs(work)
     sec = info["record"]["sec"]
-    what = {"vby": "vbyte", "log": "logseq", "dac": "dacvls", "cod": "codes", "bit": "bitseq", "wt-": "wt", "rep": "repair"}[sec[:3]]
+    what = {"vby": "vbyte", "log": "logseq", "dac": "dacvls", "cod": "codes", "tab": "tabledec", "bit": "bitseq", "wt-": "wt", "rep": "repair"}[sec[:3]]
     _w, bad, _n, _f, _i = trace_section(exe, what, work, "quick")
     same = [b for b in bad if b["p"] == pid and sec_class(b["sec"]) == sec_class(sec) and b["why"] == info["record"]["why"]]
     if same:
